@@ -52,11 +52,11 @@ def main(tier, seed):
             f.write(json.dumps({"name": n}) + "\n")
     run.notes["property_names_for_value_shapes"] = len(names)
     rows = matrix.enumerate_rows(run, "Soup", "Soup_%s.cfg" % tier, heap="8g", env={"NAMES_FILE": path})
-    matrix.judge(run, "SoupTrace", "adapters.soup", "run_row", rows, sig, corrupt, chunk=4000,
+    matrix.judge(run, "SoupTrace", "adapters.soup", "run_row", rows, sig, corrupt, chunk=4000, hard_timeout=45,
                  what=lambda t, s: json.dumps({k: v for k, v in t["item"].items() if k in ("kind", "ctx", "toks", "opener", "depth", "text", "graph", "fetch", "entry")})[:300],
                  nontrivial=lambda t: t["item"]["text"] + str(t["item"].get("entry")) + str(t["item"].get("graph")))
     files = sheets(tier, seed)
-    matrix.judge(run, "SoupTrace", "adapters.soup", "run_file", files, sig, corrupt, chunk=500,
+    matrix.judge(run, "SoupTrace", "adapters.soup", "run_file", files, sig, corrupt, chunk=500, hard_timeout=45,
                  what=lambda t, s: t["item"]["name"], nontrivial=lambda t: t["item"]["text"][:200] + t["item"]["name"])
     run.cov["exhaustive"] = False
     run.cov["rule"] = ("TLC enumerates, over a total context automaton (29 parser contexts, 64 token kinds incl. truncated tokens): every single "
